@@ -384,7 +384,7 @@ def judge(c, r, src=None):
         c.hist("route:" + x)
     if "@" in r.get("mutation", ""):
         c.hist("file-variant:" + r["mutation"].rsplit("@", 1)[1])
-    c.count(("mutant", r.get("sha")), nontrivial=oc != "ok" or "+" in r.get("mutation", "") or r.get("mutation", "").split("@")[0] in ("template", "tail", "directed-template", "directed-tail", "directed-specifier"))
+    c.count(("mutant", r.get("sha")), nontrivial=oc != "ok" or "+" in r.get("mutation", "") or r.get("mutation", "").split("@")[0] in ("template", "tail", "directed-template", "directed-tail", "directed-specifier") or r.get("mutation", "").startswith(("sentence", "invalid-alt")))
     if "veneer_restored" in r:
         c.cov["traces_validated_against_impl"] += 1
         if not r["veneer_restored"]:
@@ -412,6 +412,148 @@ def judge(c, r, src=None):
         rep["text_minimised"] = shrink(r)
 
 
+
+# ----------------------------------------------------------------------------- round 3: Scenic sentences, documented forms, compositions, error alternatives
+def load_grammars(c):
+    gram = os.path.join(common.REPO, "src/scenic/syntax/scenic.gram")
+    hdir = os.path.join(common.VERIF, "harness")
+    r = subprocess.run([common.PY, os.path.join(hdir, "c10_invalid.py"), gram], capture_output=True, text=True, timeout=600)
+    r2 = subprocess.run([common.PY, "-c", "import sys, json; sys.path.insert(0, %r); import c09_grammar as g; json.dump(g.normal_form(%r), sys.stdout)"
+                         % (hdir, "/usr/src/python3.11/Grammar/python.gram")], capture_output=True, text=True, timeout=600)
+    if r.returncode != 0 or r2.returncode != 0:
+        c.violation("grammar-sentences", "pegen cannot read scenic.gram / python.gram (fail closed)", dict(log=(r.stderr + r2.stderr)[-1500:]), no_input=True)
+        return None
+    d = json.loads(r.stdout)
+    return d["nf"], d["err"], json.loads(r2.stdout)
+
+
+def par_sent(jobs, rules, timeout=7000):
+    chunks = [jobs[i::NPROC] for i in range(NPROC)]
+    chunks = [ch for ch in chunks if ch]
+    out, reached, counts = [], {}, {}
+    with cf.ThreadPoolExecutor(max(1, len(chunks))) as ex:
+        futs = [ex.submit(common.run_impl, "impl_c10.py", dict(kind="invalid", jobs=ch, rules=rules), timeout) for ch in chunks]
+        for f in futs:
+            r = f.result()
+            out += r["results"]
+            for k, v in r["reached"].items():
+                reached.setdefault(k, v)
+            counts = r["alt_counts"]
+    return out, reached, counts
+
+
+def judge_sentence(c, j, r):
+    """oracle of one sentence / documented form / composition"""
+    kind = j["kind"]
+    rep = dict(kind_of_input=kind, text=j["text"], route="ast", outcome=r["outcome"], type=r.get("type"), msg=r.get("msg"), func=r.get("func"), file=r.get("file"),
+               lineno=r.get("lineno"), expect=j.get("expect", "ok"), sentence=True)
+    for k in ("rule", "alt", "file", "line", "title", "parent", "hole", "child", "full", "root", "kid_node", "may_reject"):
+        if k in j and k not in ("file",):
+            rep[k] = j[k]
+    if "file" in j:
+        rep["doc_file"] = j["file"]
+    c.count((kind, hashlib.sha256(j["text"].encode()).hexdigest()[:12]), nontrivial=True)
+    c.hist("sentence:%s:%s" % (kind, r["outcome"]))
+    if r["outcome"] not in ("ok", "syntax-error"):
+        judge(c, dict(r, text=j["text"], mutation="sentence:" + kind, sha=None, routes=["ast:" + r["outcome"]]))
+        return
+    expect = j.get("expect", "ok")
+    if expect == "syntax-error":
+        if r["outcome"] != "syntax-error":
+            c.violation("sentence", "an input that reaches an error-reporting alternative of the grammar is accepted", rep)
+        return
+    if r["outcome"] != "ok" and not j.get("may_reject"):
+        vk, what = {"table": ("sentence", "a sentence of the per-alternative table of Scenic's grammar rules (a valid program) is rejected"),
+                    "layout": ("sentence", "a valid multi-line / continued Scenic form is rejected"),
+                    "doc-title": ("docs-form", "an instantiation of a form documented in docs/reference (section title metasyntax) is rejected"),
+                    "doc-block": ("docs-form", "an instantiation of a `scenic-grammar` block of docs/reference is rejected")}.get(
+            kind, ("composition", "a valid composition of documented operators / specifiers / statements (written with the parentheses the precedence ladder asks for) is rejected"))
+        c.violation(vk, what, rep)
+        return
+    if "full" in j and r["outcome"] == "ok":
+        if r.get("full_outcome") != "ok":
+            c.violation("composition", "the fully parenthesised text of a composition is rejected", dict(rep, full_outcome=r.get("full_outcome"), full_msg=r.get("full_msg")))
+        elif r.get("same_tree") is False:
+            c.violation("precedence", "a composition written with the minimal parentheses of the documented precedence parses to a different tree than its fully parenthesised text",
+                        dict(rep, dump_min=r.get("dump_min"), dump_full=r.get("dump_full")))
+        elif j.get("root") and r.get("root") != j["root"]:
+            c.violation("precedence", "the root operator of a composition is not the one the operator table names", dict(rep, observed_root=r.get("root"), kids=r.get("kids")))
+        elif j.get("root") and j["root"] != "New" and j.get("kid_node") and j["kid_node"] not in (r.get("kids") or []):
+            c.violation("precedence", "the plugged-in operator is not a direct operand of the outer operator", dict(rep, observed_root=r.get("root"), kids=r.get("kids")))
+
+
+def scenic_layer(c, quick, only=None):
+    import c10_sentences as S
+    import c10_invalid as V
+    g = load_grammars(c)
+    if g is None:
+        return
+    nf, err, pnf = g
+    jobs = []
+    problems, sents = S.check_complete(nf, pnf)
+    for pr in problems:
+        c.violation("grammar-sentences", "the Scenic sentence table no longer covers every alternative of the regenerated scenic.gram: " + pr["problem"],
+                    dict(rule=pr.get("rule"), alt=pr.get("alt"), grammar=pr.get("grammar"), text=pr.get("text")), no_input=True)
+    for s_ in sents:
+        jobs.append(dict(s_, kind="table"))
+    jobs += [dict(kind="layout", text=t) for t in S.LAYOUT]
+    forms, fp = S.doc_forms(common.REPO)
+    blocks, bp = S.doc_blocks(common.REPO)
+    for pr in fp + bp:
+        c.violation("docs-form", "the metasyntax of a documented form cannot be instantiated (fail closed): " + pr["problem"], pr, no_input=True)
+    jobs += [dict(f, kind="doc-title") for f in forms] + [dict(f, kind="doc-block") for f in blocks]
+    ip, titles = S.operator_inventory(common.REPO, nf)
+    for pr in ip:
+        c.violation("grammar-sentences", "operator table out of step with docs/reference/operators.rst or the grammar: " + pr["problem"], pr, no_input=True)
+    comp = S.compositions()
+    if quick:
+        # quick: every Scenic x anything pair among operators; Python-only children in specifier / statement positions rotate with the seed
+        comp = [j for i, j in enumerate(comp) if not (j["kind"] in ("spec", "stmt") and j["py_child"] and (i + c.seed) % 3)]
+    comp += S.temporal_compositions()
+    jobs += comp
+    c.cov["scenic_sentences"] = dict(rules=len({s_["rule"] for s_ in sents}), alternatives=len({(s_["rule"], s_["alt"]) for s_ in sents}), sentences=len(sents),
+                                     layout=len(S.LAYOUT), doc_titles=len(forms), doc_blocks=len(blocks), operator_titles=len(titles), compositions=len(comp))
+    # error-reporting alternatives
+    gen, ijobs = V.build(nf, err, c.seed, 12 if quick else 120)
+    targets = gen.targets()
+    rules = sorted({r for r, _ in targets})
+    for j in ijobs:
+        j["kind"] = "invalid"
+        j["string"] = j["id"] % 4 == 0
+    jobs += ijobs
+    if only:
+        jobs = [j for j in jobs if re.search(only, j["kind"])]
+    for i, j in enumerate(jobs):
+        j["id"] = i
+    res, reached, counts = par_sent(jobs, rules)
+    byid = {j["id"]: j for j in jobs}
+    for r in sorted(res, key=lambda r: r["id"]):
+        j = byid[r["id"]]
+        if j["kind"] != "invalid":
+            judge_sentence(c, j, r)
+            continue
+        c.hist("invalid-input:" + r["outcome"])
+        c.count(("invalid", hashlib.sha256(j["text"].encode()).hexdigest()[:12]), nontrivial=bool(r.get("reached")))
+        if r["outcome"] not in ("ok", "syntax-error") or r.get("veneer_restored") is False:
+            judge(c, dict(r, text=j["text"], mutation="invalid-alternative:%s:%s" % tuple(j["target"]), sha=None, reached=r.get("reached")))
+    allk = {"%s:%d" % t for t in targets}
+    bad_counts = {n: (counts.get(n), len(nf["rules"][n]["alts"])) for n in rules if counts.get(n) != len(nf["rules"][n]["alts"])}
+    if bad_counts and not only:
+        c.violation("invalid-coverage", "the alternatives of an error-reporting rule cannot be located in the generated parser (coverage would be unmeasured)", dict(rules=bad_counts), no_input=True)
+    unreached = sorted(allk - set(reached))
+    stale = sorted(k for k in V.UNREACHED if k in reached or k not in allk)
+    c.cov["invalid_alternatives"] = dict(total=len(allk), reached=len(allk & set(reached)), unreached_listed=[k for k in unreached if k in V.UNREACHED],
+                                         inputs=len(ijobs), rules=len(rules))
+    if not only:
+        for k in unreached:
+            if k not in V.UNREACHED:
+                rn, ai = k.rsplit(":", 1)
+                c.violation("invalid-coverage", "no generated input reaches this error-reporting alternative of scenic.gram and it is not listed as unreachable (fail closed)",
+                            dict(alternative=k, grammar=nf["rules"][rn]["alts"][int(ai)]), no_input=True)
+        for k in stale:
+            c.violation("invalid-coverage", "an alternative listed as unreachable is reached (or no longer exists): remove it from c10_invalid.UNREACHED", dict(alternative=k), no_input=True)
+
+
 def main():
     c = Check(PID, "other")
     c.cov["rule"] = ("mutants of the .scenic programs under examples/ and tests/ (14 operators: delete/insert/replace/swap characters, tokens and lines, "
@@ -427,7 +569,12 @@ def main():
     if c.replay:
         body = json.load(open(c.replay))
         case = body.get("case", {})
-        if case.get("text") is not None:
+        if case.get("sentence"):
+            j = dict(case, kind=case.get("kind_of_input", "table"), id=0)
+            j = {k: v for k, v in j.items() if k in ("kind", "id", "text", "full", "expect", "root", "kid_node", "may_reject", "rule", "alt", "parent", "hole", "child")}
+            res, _, _ = par_sent([j], [])
+            judge_sentence(c, j, res[0])
+        elif case.get("text") is not None:
             job = dict(id=0, text=case.get("text_minimised") or case["text"], routes=[case["route"]] if case.get("route") else None)
             if case.get("raw_hex"):
                 job["raw_hex"] = case["raw_hex"]
@@ -437,8 +584,13 @@ def main():
         else:
             injection(c)
         c.finish()
+    only = os.environ.get("VERIF_C10_ONLY")          # development knob: regex over the round-3 input kinds
+    if only:
+        scenic_layer(c, quick, only)
+        c.finish()
     grammar_wf(c)
     injection(c)
+    scenic_layer(c, quick)
 
     # docs/reference samples: every sample accepted when the baseline was recorded must still be accepted
     docs = common.run_impl("impl_c10.py", dict(kind="docs"))["results"]
